@@ -180,8 +180,8 @@ impl fmt::Debug for BlockIndexRecord {
 impl BlockIndexRecord {
     pub fn verif_json(&self) -> String {
         format!(
-            "\"hash\":\"{}\",\"h\":{},\"status\":{},\"ntx\":{},\"file\":\"{}\",\"off\":\"{}\"",
-            self.block_hash, self.height, self.status, self.tx_count, self.blk_index, self.data_offset
+            "\"hash\":\"{}\",\"h\":{},\"status\":{},\"ntx\":{},\"file\":\"{}\",\"off\":\"{}\",\"prev\":\"{}\"",
+            self.block_hash, self.height, self.status, self.tx_count, self.blk_index, self.data_offset, self.prev_hash
         )
     }
 }
